@@ -2,10 +2,35 @@ package index
 
 import (
 	"encoding/binary"
+	"errors"
 	"io"
+	"math"
 )
 
+// Limits of the snapshot format: number of entries and value length are
+// stored as uint16, key length as uint8.
+const (
+	MaxMetadataEntries     = math.MaxUint16
+	MaxMetadataKeyLength   = math.MaxUint8
+	MaxMetadataValueLength = math.MaxUint16
+)
+
+var MetadataTooLargeErr error = errors.New("Metadata too large")
+
 type Metadata map[string]string
+
+// Checks that the metadata can be stored (and restored) by save / load.
+func (this Metadata) Validate() error {
+	if len(this) > MaxMetadataEntries {
+		return MetadataTooLargeErr
+	}
+	for k, v := range this {
+		if len(k) > MaxMetadataKeyLength || len(v) > MaxMetadataValueLength {
+			return MetadataTooLargeErr
+		}
+	}
+	return nil
+}
 
 func (this Metadata) bytesSize() uint64 {
 	var n int = 0
@@ -17,6 +42,9 @@ func (this Metadata) bytesSize() uint64 {
 }
 
 func (this Metadata) save(w io.Writer) error {
+	if len(this) > MaxMetadataEntries {
+		return MetadataTooLargeErr
+	}
 	if err := binary.Write(w, binary.BigEndian, uint16(len(this))); err != nil {
 		return err
 	}
@@ -44,6 +72,9 @@ func (this Metadata) load(r io.Reader) error {
 }
 
 func (this Metadata) saveKV(w io.Writer, k string, v string) error {
+	if len(k) > MaxMetadataKeyLength || len(v) > MaxMetadataValueLength {
+		return MetadataTooLargeErr
+	}
 	if err := binary.Write(w, binary.BigEndian, uint8(len(k))); err != nil {
 		return err
 	}
